@@ -48,6 +48,18 @@ def make_math():
     A["atanh"] = Builtin("math.atanh", lambda I, a, k: uf1(I, F_atanh, "atanh", a[0], lambda z: z3.And(z > -1, z < 1), "ValueError"))
     from .numpy_model import PI
     A["pi"] = PI
+    from fractions import Fraction as _F
+    import math as _math
+
+    def rounding(fn):
+        def f(I, a, k):
+            x = a[0]
+            if isinstance(x, bool) or not isinstance(x, (int, _F)):
+                raise Unsupported(f"math.{fn} of a symbolic value")
+            return getattr(_math, fn)(x)
+        return Builtin(f"math.{fn}", f)
+    for fn in ("floor", "ceil", "trunc"):
+        A[fn] = rounding(fn)
     return ExtModule("math", A)
 
 
@@ -64,6 +76,18 @@ def dataclass_decorator(I, a, k):
                     if name not in fields:
                         fields.append(name)
         defaults = {f: cls.lookup(f)[1] for f in fields if cls.lookup(f) is not None}
+        for f, d in list(defaults.items()):
+            if isinstance(d, FieldSpec):
+                if not d.init:
+                    raise Unsupported("dataclass field(init=False)")
+                if d.default is FieldSpec.MISSING and d.factory is FieldSpec.MISSING:
+                    del defaults[f]
+                    for c in cls.mro:
+                        if isinstance(c, ClassVal) and isinstance(c.ns.get(f), FieldSpec):
+                            del c.ns[f]
+                elif d.default is not FieldSpec.MISSING:
+                    defaults[f] = d.default
+                    cls.ns[f] = d.default
 
         def init(I_, args, kwargs):
             self = args[0]
@@ -80,7 +104,8 @@ def dataclass_decorator(I, a, k):
             for f in fields:
                 if f not in vals:
                     if f in defaults:
-                        vals[f] = defaults[f]
+                        d = defaults[f]
+                        vals[f] = I_.call(d.factory, [], {}) if isinstance(d, FieldSpec) else d       # default_factory: a fresh value per instance
                     else:
                         raise PyExc("TypeError", (f"{cls.name}.__init__() missing required argument: '{f}'",))
             for f in fields:
@@ -103,6 +128,139 @@ def dataclass_decorator(I, a, k):
     if a and isinstance(a[0], ClassVal):
         return apply(a[0])
     return Builtin("dataclass()", lambda I_, aa, kk: apply(aa[0]))
+
+
+class FieldSpec(Ext):
+    """dataclasses.field(default=..., default_factory=...)"""
+    type_name = "dataclass-field"
+    MISSING = object()
+
+    def __init__(self, default, factory, init):
+        self.default, self.factory, self.init = default, factory, init
+
+
+def operator_index(I, a, k):
+    v = a[0]
+    if isinstance(v, bool):
+        return int(v)
+    if isinstance(v, int) or (isinstance(v, Sym) and v.kind == "int"):
+        return v
+    if isinstance(v, Sym) and v.kind == "bool":
+        return ops.mk(z3.If(v.t, z3.IntVal(1), z3.IntVal(0)))
+    if isinstance(v, Obj):
+        hook = v.cls.lookup("__index__")
+        if hook is not None:
+            return I.call(I.bind(hook[1], v, v.cls), [], {})
+    if isinstance(v, (Fraction, str, list, tuple, dict, type(None))) or isinstance(v, Sym) or isinstance(v, Obj):
+        raise PyExc("TypeError", (f"'{type(v).__name__}' object cannot be interpreted as an integer",))
+    raise Unsupported(f"operator.index of {type(v).__name__}")
+
+
+def dataclass_field(I, a, k):
+    extra = set(k) - {"default", "default_factory", "init", "repr", "compare", "hash", "metadata", "kw_only"}
+    if a or extra:
+        raise PyExc("TypeError", ("field() got an unexpected argument",))
+    if k.get("compare", True) is not True or k.get("kw_only", False) is not False:
+        raise Unsupported("dataclass field(compare=False / kw_only=True)")
+    if "default" in k and "default_factory" in k:
+        raise PyExc("ValueError", ("cannot specify both default and default_factory",))
+    return FieldSpec(k.get("default", FieldSpec.MISSING), k.get("default_factory", FieldSpec.MISSING), k.get("init", True))
+
+
+class CachedProperty(Ext):
+    """functools.cached_property: computed on first access, then stored in the instance under the same name"""
+    type_name = "cached_property"
+
+    def __init__(self, func):
+        self.func = func
+
+
+
+class NativeMethod(Ext):
+    """a method implemented by the engine, stored in a class namespace"""
+    type_name = "method(engine)"
+    callable = True
+
+    def __init__(self, name, fn, bound=None):
+        self.name, self.fn, self.bound = name, fn, bound
+
+    def bind_to(self, obj):
+        return NativeMethod(self.name, self.fn, bound=obj)
+
+    def py_call(self, I, args, kwargs):
+        if self.bound is not None:
+            return self.fn(I, self.bound, list(args), kwargs)
+        return self.fn(I, args[0], list(args[1:]), kwargs)
+
+
+def make_namedtuple(I, cls):
+    """class C(typing.NamedTuple): the annotated fields in order, defaults from the class body; instances are immutable
+    tuples of the field values with attribute access.  Modelled: construction, attribute access, iteration / unpacking,
+    indexing, len, ==, _asdict, _replace, _fields, __match_args__; any other tuple method is out of reach."""
+    fields = list(cls.ns.get("__annotations__", {}))
+    defaults = {f: cls.ns[f] for f in fields if f in cls.ns}
+    for f in defaults:
+        del cls.ns[f]
+    seen_default = False
+    for f in fields:
+        if f in defaults:
+            seen_default = True
+        elif seen_default:
+            raise PyExc("TypeError", (f"Non-default namedtuple field {f} cannot follow default field",))
+    cls.nt_fields = tuple(fields)
+
+    def init(I_, args, kwargs):
+        self = args[0]
+        rest = list(args[1:])
+        if len(rest) > len(fields):
+            raise PyExc("TypeError", (f"{cls.name}.__new__() takes {len(fields) + 1} positional arguments but {len(rest) + 1} were given",))
+        vals = dict(zip(fields, rest))
+        for kk, vv in kwargs.items():
+            if kk not in fields:
+                raise PyExc("TypeError", (f"{cls.name}.__new__() got an unexpected keyword argument '{kk}'",))
+            if kk in vals:
+                raise PyExc("TypeError", (f"{cls.name}.__new__() got multiple values for argument '{kk}'",))
+            vals[kk] = vv
+        for f in fields:
+            if f not in vals:
+                if f not in defaults:
+                    raise PyExc("TypeError", (f"{cls.name}.__new__() missing required positional argument: '{f}'",))
+                vals[f] = defaults[f]
+        for f in fields:
+            self.attrs[f] = vals[f]
+
+    def values(o):
+        return [o.attrs[f] for f in fields]
+
+    def is_nt(x):
+        return hasattr(x, "cls") and getattr(x.cls, "nt_fields", None) is not None
+
+    def eq(I_, me, a, k):
+        other = a[0]
+        if is_nt(other):
+            other = tuple(other.attrs[f] for f in other.cls.nt_fields)
+        if not isinstance(other, tuple):
+            return ops.NOT_IMPLEMENTED
+        return ops.compare(I_, "Eq", tuple(values(me)), other)
+
+    def replace(I_, me, a, k):
+        bad = [x for x in k if x not in fields]
+        if bad:
+            raise PyExc("ValueError", (f"Got unexpected field names: {bad!r}",))
+        return I_.call(me.cls, [k.get(f, me.attrs[f]) for f in fields], {})
+
+    cls.ns["__init__"] = Builtin(f"{cls.name}.__new__", init)
+    cls.ns["__iter__"] = NativeMethod("__iter__", lambda I_, me, a, k: ops.IterVal(iter(values(me))))
+    cls.ns["__len__"] = NativeMethod("__len__", lambda I_, me, a, k: len(fields))
+    cls.ns["__getitem__"] = NativeMethod("__getitem__", lambda I_, me, a, k: ops.getitem(I_, tuple(values(me)), a[0]))
+    cls.ns["__eq__"] = NativeMethod("__eq__", eq)
+    cls.ns["_asdict"] = NativeMethod("_asdict", lambda I_, me, a, k: {f: me.attrs[f] for f in fields})
+    cls.ns["_replace"] = NativeMethod("_replace", replace)
+    cls.ns["_fields"] = tuple(fields)
+    cls.ns["_field_defaults"] = dict(defaults)
+    cls.ns["__match_args__"] = tuple(fields)
+    cls.ns.setdefault("__slots__", ())
+    return cls
 
 
 class DataclassEq(Ext):
@@ -160,6 +318,7 @@ def make_models(extra_numpy=None):
     for n in ["Any", "ClassVar", "Generic", "Literal", "Self", "TypeVar", "IO", "Final", "Protocol",
               "Callable", "Iterator", "Generator", "overload", "runtime_checkable", "TYPE_CHECKING_MARK"]:
         typing_names[n] = TypingMarker(n)
+    typing_names["NamedTuple"] = TypingMarker("NamedTuple")
     typing_names["TYPE_CHECKING"] = False
     typing_names["cast"] = Builtin("cast", lambda I, a, k: a[1])
     typing_names["TypeVar"] = Builtin("TypeVar", lambda I, a, k: TypingMarker("TypeVar:" + str(a[0])), lenient=True)
@@ -168,8 +327,30 @@ def make_models(extra_numpy=None):
     M["collections"] = ExtModule("collections", {"abc": M["collections.abc"]})
     M["abc"] = ExtModule("abc", {"ABC": TypingMarker("ABC"), "abstractmethod": Builtin("abstractmethod", lambda I, a, k: a[0])})
     M["warnings"] = ExtModule("warnings", {"warn": Builtin("warn", lambda I, a, k: I.path.event("warn", ops.describe(a[0]) if a else ""), lenient=True)})
-    M["copy"] = ExtModule("copy", {"deepcopy": Builtin("deepcopy", deepcopy)})
-    M["dataclasses"] = ExtModule("dataclasses", {"dataclass": Builtin("dataclass", dataclass_decorator)})
+    def shallow_copy(I, a, k):
+        v = a[0]
+        if v is None or isinstance(v, (bool, int, str, tuple)) or ops.is_scalar(v):
+            return v
+        if isinstance(v, list):
+            return list(v)
+        if isinstance(v, dict):
+            return dict(v)
+        if isinstance(v, Tensor):
+            return v.copy()
+        if isinstance(v, ops.PySet):
+            return ops.PySet(v.items)
+        if isinstance(v, Obj):
+            hook = v.cls.lookup("__copy__")
+            if hook is not None:
+                return I.call(I.bind(hook[1], v, v.cls), [], {})
+            if any(v.cls.lookup(h) is not None for h in ("__reduce__", "__reduce_ex__", "__getstate__", "__setstate__", "__getnewargs__")):
+                raise Unsupported("copy.copy of an object with pickling hooks")
+            o = Obj(v.cls)
+            o.attrs.update(v.attrs)
+            return o
+        raise Unsupported(f"copy.copy of {type(v).__name__}")
+    M["copy"] = ExtModule("copy", {"deepcopy": Builtin("deepcopy", deepcopy), "copy": Builtin("copy.copy", shallow_copy)})
+    M["dataclasses"] = ExtModule("dataclasses", {"dataclass": Builtin("dataclass", dataclass_decorator), "field": Builtin("field", dataclass_field)})
     M["contextlib"] = ExtModule("contextlib", {
         "suppress": Builtin("suppress", lambda I, a, k: ("suppress", list(a))),
         "ExitStack": Builtin("ExitStack", lambda I, a, k: ExitStackModel()),
@@ -201,7 +382,18 @@ def make_models(extra_numpy=None):
 
         def py_call(self, I, a, k):
             return I.call(self.f, self.args + list(a), dict(self.kwargs, **k))
-    M["functools"] = ExtModule("functools", {"reduce": Builtin("functools.reduce", reduce_),
+    def wraps(I, a, k):
+        wrapped = a[0]
+
+        def deco(I_, aa, kk):
+            f = aa[0]
+            if hasattr(f, "attrs") and hasattr(wrapped, "name"):
+                f.attrs["__wrapped__"] = wrapped
+                f.attrs["__name__"] = wrapped.name
+            return f
+        return Builtin("functools.wraps(...)", deco)
+    M["functools"] = ExtModule("functools", {"wraps": Builtin("functools.wraps", wraps, lenient=True), "cached_property": Builtin("functools.cached_property", lambda I, a, k: CachedProperty(a[0])),
+                                             "reduce": Builtin("functools.reduce", reduce_),
                                              "partial": Builtin("functools.partial", lambda I, a, k: Partial(a[0], a[1:], k))})
 
     class Getter(Ext):
@@ -257,6 +449,7 @@ def make_models(extra_numpy=None):
         **{nm: Builtin(f"operator.{nm}", (lambda sym, inp: lambda I, a, k: ops.binop(I, sym, a[0], a[1], inp))(sym, inp))
            for nm, sym, inp in (("floordiv", "//", False), ("mod", "%", False), ("pow", "**", False), ("matmul", "@", False), ("and_", "&", False), ("or_", "|", False),
                                 ("xor", "^", False), ("imul", "*", True), ("itruediv", "/", True), ("ior", "|", True), ("iand", "&", True))},
+        "index": Builtin("operator.index", operator_index),
         "not_": Builtin("operator.not_", lambda I, a, k: ops.unop(I, "Not", a[0])),
         "truth": Builtin("operator.truth", lambda I, a, k: ops.truth(I, a[0])),
         "contains": Builtin("operator.contains", lambda I, a, k: ops.compare(I, "In", a[1], a[0])),
